@@ -326,9 +326,23 @@ fn gen_delegation_method<'s>(
         (None, Some(SpanOpt(Delegate::ByRef(RefDelegate::Borrow), _))) => quote! {
             self.as_ref().borrow().#fn_ident(#(#arguments),*)
         },
-        _ => quote! {
-            self.as_ref().#fn_ident(#(#arguments),*)
-        },
+        _ => {
+            let takes_self_by_value = matches!(
+                fn_sig.inputs.first(),
+                Some(syn::FnArg::Receiver(receiver)) if receiver.reference.is_none()
+            );
+
+            if takes_self_by_value {
+                // `self.as_ref()` would have to move out of a reference
+                quote! {
+                    self.into_inner().#fn_ident(#(#arguments),*)
+                }
+            } else {
+                quote! {
+                    self.as_ref().#fn_ident(#(#arguments),*)
+                }
+            }
+        }
     };
 
     DelegatingMethod {
